@@ -357,7 +357,15 @@ func TestC19(t *testing.T) {
 		if vi == 2 {
 			app = newAppUnsetDurations()
 		}
-		mat := makeMaterial(app)
+		var mat *material
+		if pv := func() (pv any) {
+			defer func() { pv = recover() }()
+			mat = makeMaterial(app)
+			return nil
+		}(); pv != nil {
+			r.Violation("c19-protocol:encrypt", fmt.Sprintf("server variant %d (0 plain, 1 session cache, 2 durations unset): a fresh sidecar did not answer get-session + encrypt with a record: %v", vi, pv), map[string]any{"engine": "grpcsrv/in-process", "variant": vi})
+			continue
+		}
 		L := Ls[vi]
 		seq := make([]int, 0, L)
 		var rec func()
